@@ -1,5 +1,7 @@
 package main
 
+import "os"
+
 // shared helpers for all sub-commands
 
 func firstWord(s string) string {
@@ -9,4 +11,12 @@ func firstWord(s string) string {
 		}
 	}
 	return s
+}
+
+// repoRoot is the source tree the harness was built against (VERIF_REPO, default /repo).
+func repoRoot() string {
+	if r := os.Getenv("VERIF_REPO"); r != "" {
+		return r
+	}
+	return "/repo"
 }
